@@ -97,7 +97,7 @@ def gen_filter(rng, depth):
 _LAMBDAS = lambda_leaves_p()
 
 def all_leaves():
-    return INT_LEAVES_P + PATH_LEAVES_P + _LAMBDAS
+    return INT_LEAVES_P + PATH_LEAVES_P + NATKEY_LEAVES_P + _LAMBDAS
 
 # filters on other root models (same-named collections / relationships on different models)
 OTHER_ROOTS = [
@@ -105,11 +105,14 @@ OTHER_ROOTS = [
     ("o", "O", ["ps/any(q: q/a gt 0)", "ps/all(q: q/a gt 0)", "ps/any()", "ks/any(j: j/x eq 2)", "ps/any(q: q/kids/any(k: k/x eq 2))"]),
     ("k", "K", ["p/o/n eq 5", "p/o/n eq null", "o/n eq 5 or p/a eq 2", "p/tags/any(t: t/label eq 'l')", "o/name eq 'x' and p/o/name eq 'x'", "p/w/o/label eq 'l'"]),
     ("w", "W", ["o/label eq 'l'", "ps/any(q: q/o/n eq 5)", "ps/all(q: q/a gt 0)", "o/ps/any()"]),
+    # a collection reached through a foreign key that references a natural key of THIS model (d.number), whose primary key is another column
+    ("d", "D", ["emps/any()", "emps/any(e: e/a gt 0)", "emps/all(e: e/a ge 0)", "emps/any(e: e/a gt 0) and number gt 1", "not emps/any() or id eq 2",
+                "emps/any(e: e/kids/any(k: k/x eq 2))", "emps/all(e: e/tags/any(t: t/label eq 'l'))"]),
 ]
 
 # to-one relations of the verification schema: (table, relation) -> target table
-TO_ONE = {("p", "o"): "o", ("p", "w"): "w", ("k", "p"): "p", ("k", "o"): "o", ("w", "o"): "tag"}
-ROOT_TABLE = {"P": "p", "K": "k", "W": "w", "O": "o", "Tag": "tag"}
+TO_ONE = {("p", "o"): "o", ("p", "w"): "w", ("k", "p"): "p", ("k", "o"): "o", ("w", "o"): "tag", ("p", "dept"): "d"}
+ROOT_TABLE = {"P": "p", "K": "k", "W": "w", "O": "o", "Tag": "tag", "D": "d"}
 
 def same_table_twice(text, model):
     """does the filter navigate two DIFFERENT to-one paths that reach the same table (or the root table itself)?
